@@ -49,6 +49,7 @@ type solver struct {
 	errSeen bool
 	argv    []string
 	declared map[string]bool // vars declared at level 0
+	predSent map[string]bool // rune predicates defined in the current path scope
 }
 
 // builtinPreds are the rune predicates available as SMT functions.
@@ -86,19 +87,28 @@ func rangePredicate(f func(rune) bool) string {
 	return "(or " + strings.Join(parts, " ") + ")"
 }
 
-var predDefs string
+// predDef holds the SMT definition of each rune predicate; a definition is sent to the
+// solver only in paths that use it (the large disjunctions slow every query down).
+var predDef = map[string]string{}
 
 func init() {
-	var sb strings.Builder
 	for _, name := range []string{"isLetter", "isDigit", "isSpace", "isPrint", "isUpper", "isLower"} {
-		fmt.Fprintf(&sb, "(define-fun %s ((r (_ BitVec 32))) Bool %s)\n", name, rangePredicate(builtinPreds[name]))
+		predDef[name] = fmt.Sprintf("(define-fun %s ((r (_ BitVec 32))) Bool %s)", name, rangePredicate(builtinPreds[name]))
 	}
-	predDefs = sb.String()
 }
 
 func newSolver(tt *termTable, argv []string, timeoutMs int) (*solver, error) {
 	if len(argv) == 0 {
-		argv = []string{"z3", "-in", "-smt2"}
+		// z3 5.1.0 (z3-new) answers the many small incremental queries of this engine
+		// ~30x faster than the distribution's z3 4.8.12; the latter is the fallback and
+		// the cross-check solver.
+		if p, err := exec.LookPath("z3-new"); err == nil && os.Getenv("GOSYM_SOLVER") == "" {
+			argv = []string{p, "-in", "-smt2"}
+		} else if sv := os.Getenv("GOSYM_SOLVER"); sv != "" {
+			argv = strings.Fields(sv)
+		} else {
+			argv = []string{"z3", "-in", "-smt2"}
+		}
 	}
 	s := &solver{tt: tt, argv: argv, declared: map[string]bool{}}
 	s.cmd = exec.Command(argv[0], argv[1:]...)
@@ -127,7 +137,6 @@ func newSolver(tt *termTable, argv []string, timeoutMs int) (*solver, error) {
 		s.send(fmt.Sprintf("(set-option :timeout %d)", timeoutMs))
 	}
 	s.send("(set-option :produce-models true)")
-	s.send(predDefs)
 	// sync
 	s.send("(echo \"ready\")")
 	line, err := s.readLine()
@@ -231,6 +240,7 @@ func (s *solver) endPath() {
 		}
 		s.scoped = s.scoped[:0]
 		s.inScope = false
+		s.predSent = nil
 	}
 }
 
@@ -247,6 +257,13 @@ func (s *solver) define(t *Term) {
 	}
 	for _, a := range t.args {
 		s.define(a)
+	}
+	if t.op == "call" && !s.predSent[t.name] {
+		if s.predSent == nil {
+			s.predSent = map[string]bool{}
+		}
+		s.predSent[t.name] = true
+		s.send(predDef[t.name])
 	}
 	s.send(fmt.Sprintf("(define-fun t%d () %s %s)", t.id, t.sort, t.def()))
 	t.named = true
